@@ -48,6 +48,15 @@ func (m *Model) resolve(v ssa.Value, fr *frame) (ssa.Value, *frame) {
 				// bound directly to a value (rare: go/ssa captures by reference)
 				v, fr = bind, pfr
 				continue
+			default:
+				// load through a pointer value: *p where p resolves to a local cell (e.g. ifCas = &cas)
+				px, pfr := m.resolve(x.X, fr)
+				if al, ok := px.(*ssa.Alloc); ok && px != x.X {
+					if st := singleStore(al); st != nil {
+						v, fr = st.Val, pfr
+						continue
+					}
+				}
 			}
 			return v, fr
 		case *ssa.FreeVar:
